@@ -473,22 +473,33 @@ def fdtObj (s : SessCfg) (f : FdtCfg) : ObjCfg :=
   { toi := 0, scheme := s.fdtScheme, ks := f.ks, blen := #[], p := s.fdtP, inbandFti := true,
     transfers := 1, carousel := true, noCache := false }
 
+/-- a fresh `FdtReceiver`: FDT packets always carry the FTI and the instance id, the writer exists at once -/
+def fdtFresh : ORx := { otiKnown := true, attached := true, cache := [], written := 0, got := [] }
+
+/-- `fdt_receivers.entry(id).or_insert(new)` -/
+def fdtLookup (st : FdtRx) (id : Nat) : ORx :=
+  match st.receiving.find? (fun x => x.1 == id) with
+  | some x => x.2
+  | none => fdtFresh
+
+/-- bookkeeping after the packet was pushed to the instance's receiver -/
+def fdtFinish (st : FdtRx) (id : Nat) (f : FdtCfg) (r : PushRes) : FdtRx × Option FdtCfg :=
+  let others := st.receiving.filter (fun x => x.1 != id)
+  match r.term with
+  | .receiving => ({ st with receiving := (id, r.rx) :: others }, none)
+  | .completed => ({ receiving := others, current := (id :: st.current).take 10 }, some f)
+  | _ => ({ st with receiving := others }, none)
+
 /-- push one FDT packet; returns the new state and the instance that completed, if any -/
 def stepFdt (dec : (k p : Nat) → List Nat → Bool) (rc : RxCfg) (s : SessCfg) (st : FdtRx) (p : Pkt) : FdtRx × Option FdtCfg :=
   if rc.receiveOnce && st.current.contains p.fdtId then (st, none) else
-  match s.fdts.find? (·.id == p.fdtId) with
+  match s.fdts.find? (fun x => x.id == p.fdtId) with
   | none => (st, none)
   | some f =>
-    let rx : ORx := match st.receiving.find? (·.1 == p.fdtId) with
-      | some (_, rx) => rx
-      | none => { otiKnown := true, attached := true, cache := [], written := 0, got := [] }
-    -- the FDT's own allocation limit (1 MiB) and look-ahead limit are not modelled: FDTs are small
-    let r := pushSym dec { rc with maxSize := 1024 * 1024 } (fdtObj s f) rx { sbn := p.sbn, esi := p.esi, close := p.close }
-    let others := st.receiving.filter (·.1 != p.fdtId)
-    match r.term with
-    | .receiving => ({ st with receiving := (p.fdtId, r.rx) :: others }, none)
-    | .completed => ({ receiving := others, current := (p.fdtId :: st.current).take 10 }, some f)
-    | _ => ({ st with receiving := others }, none)
+    -- the FDT's own allocation limit (1 MiB) does not bind: the per-block accounting of FDTs is not modelled
+    fdtFinish st p.fdtId f
+      (pushSym dec { rc with maxSize := 1024 * 1024 } (fdtObj s f) (fdtLookup st p.fdtId)
+        { sbn := p.sbn, esi := p.esi, close := p.close })
 
 /-- the event sequence one object sees when the receiver is fed `ps` -/
 def eventsFor (dec : (k p : Nat) → List Nat → Bool) (rc : RxCfg) (s : SessCfg) (o : ObjCfg) : FdtRx → List Pkt → List Ev
